@@ -152,6 +152,11 @@ func (r *Run) StartWatchdog(d time.Duration) {
 		n := runtime.Stack(buf, true)
 		_ = os.MkdirAll(filepath.Join(Root, "build"), 0o755)
 		_ = os.WriteFile(filepath.Join(Root, "build", r.Prop+".watchdog.txt"), buf[:n], 0o644)
+		if atomic.LoadInt64(&r.violations) > 0 {
+			// violations were already reported (with replay files); the run just could not finish
+			fmt.Printf("SUMMARY property=%s tier=%s seed=%d violations=%d (run stopped by watchdog after %s)\n", r.Prop, r.Tier, r.Seed, atomic.LoadInt64(&r.violations), d)
+			os.Exit(1)
+		}
 		fmt.Printf("INCONCLUSIVE property=%s reason=watchdog-%s\n", r.Prop, d)
 		os.Exit(3)
 	}()
@@ -314,6 +319,15 @@ func (r *Run) runCase(name string, idx int, fn func(c *Case)) {
 	}()
 	fn(c)
 }
+
+// CaseFor returns a case handle for (phase, idx) outside Phase (used when failures are found by a
+// supervising loop, e.g. child processes). The caller must call Done.
+func (r *Run) CaseFor(phase string, idx int) *Case {
+	return &Case{R: r, Phase: phase, Idx: idx, Rng: NewRNG(SeedOf(r.Seed, r.Prop, phase, idx)), cnt: map[string]int64{}, max: map[string]int64{}}
+}
+
+// Done merges the case's counters into the run.
+func (c *Case) Done() { c.flush() }
 
 // Counter returns the current merged counter value.
 func (r *Run) Counter(k string) int64 {
